@@ -1,4 +1,5 @@
 """C03 — the notes in the MIDI file are the notes the MML text denotes: streams."""
+import re
 from ..core import Stream, hx, unhx
 from .. import mml, execstream
 
@@ -20,6 +21,9 @@ def streams(tier, rng, P, only=None, cases=None):
         for i in range(n):
             prog = mml.gen_program(rng, depth=rng.choice([1, 2, 3, 3, 4]), maxlen=rng.choice([4, 8, 12]))
             src = mml.pr(prog, sep=rng.choice([" ", " ", "\n"]))
+            if i % 3 == 1:
+                # a loop played twice may be written without its count, whatever its body begins with (a note, a chord, a tuplet, `Sub`, `TR` …)
+                src = re.sub(r"\[[ \t]*2[ \t]+(?=[a-gr'{\[nolvq<>STD])", "[", src)
             cs.append(dict(req="run " + hx(src), src=src, show=src, sexp=mml.sexp(prog), key="p%d" % i, prog=prog))
         fixed = [
             ([('note', 'c', 0, False, None, None, None, None, None)], None),
